@@ -1272,4 +1272,106 @@ theorem poll_cases (s : Station) (apps : Apps) (now : Int) (phy : Bool) (rx : By
       unfold Station.wake
       split <;> simp [hon]
 
+
+theorem wake_cases (s : Station) :
+    s.wake = s ∨ (s.wake = { s with st := .listenToken none 0 } ∧ (s.st = .offline ∨ s.st = .passiveIdle)) := by
+  unfold Station.wake
+  split
+  · rename_i h; exact .inr ⟨rfl, .inl h⟩
+  · rename_i h; exact .inr ⟨rfl, .inr h⟩
+  · exact .inl rfl
+
+@[simp] theorem wake_p (s : Station) : s.wake.p = s.p := by rcases wake_cases s with h | ⟨h, -⟩ <;> rw [h]
+@[simp] theorem wake_ring (s : Station) : s.wake.ring = s.ring := by rcases wake_cases s with h | ⟨h, -⟩ <;> rw [h]
+@[simp] theorem wake_online (s : Station) : s.wake.online = s.online := by rcases wake_cases s with h | ⟨h, -⟩ <;> rw [h]
+@[simp] theorem wake_nextApp (s : Station) : s.wake.nextApp = s.nextApp := by rcases wake_cases s with h | ⟨h, -⟩ <;> rw [h]
+
+/-- The application callbacks of one poll, by start state: none at all unless the poll starts in
+`UseToken` (only `transmit_telegram` calls) or in `AwaitDataResponse` (the admitted reply alone, or the
+time-out followed by `transmit_telegram` calls of the continued token visit).  Whenever the poll ends
+in `AwaitDataResponse`, either nothing was called and it was already waiting for the same request, or
+the last callback is the request now awaited. -/
+theorem poll_calls (s : Station) (apps : Apps) (now : Int) (phy : Bool) (rx : Bytes) (c' : Ctx)
+    (h : s.poll apps now phy rx = .ok c') :
+    (c'.calls = [] ∧ (∀ a d, c'.s.st = .awaitData a d → s.st = .awaitData a d ∧ c'.s.nextApp = s.nextApp)) ∨
+    (s.online = true ∧ (∃ d fcd, s.st = .useToken d fcd) ∧ AskRun c'.calls ∧ AwaitLink c'.calls c'.s) ∨
+    (s.online = true ∧ ∃ a d, s.st = .awaitData a d ∧
+       ((∃ t, validReplyB s.p.address a t = true ∧ c'.calls = [.reply s.nextApp a t] ∧ c'.s.st = .useToken d true) ∨
+        (∃ new, c'.calls = .timeout s.nextApp a :: new ∧ AskRun new ∧ AwaitLink new c'.s))) := by
+  rcases poll_cases s apps now phy rx c' h with ⟨hoff, hst, rfl⟩ | ⟨hon, rfl⟩ | ⟨hon, hd⟩
+  · exact .inl ⟨rfl, fun a d h => ⟨h, rfl⟩⟩
+  · refine .inl ⟨rfl, fun a d h => ?_⟩
+    rcases wake_cases s with hw | ⟨hw, -⟩
+    · rw [hw] at h ⊢; exact ⟨by simpa using h, by simp⟩
+    · rw [hw] at h; simp at h
+  · -- quiet handlers: no callbacks, and they never end in AwaitDataResponse
+    have quiet : ∀ {c0 : Ctx} {P : Nat → UseData → Prop}, c0.calls = [] → Quiet c0 c' → (∀ a d, c'.s.st ≠ .awaitData a d) →
+        (c'.calls = [] ∧ (∀ a d, c'.s.st = .awaitData a d → P a d)) := by
+      intro c0 P h0 hq hne
+      exact ⟨by rw [hq.calls, h0], fun a d h => absurd h (hne a d)⟩
+    rcases wake_cases s with hw | ⟨hw, -⟩
+    · rw [hw] at hd
+      cases hst : s.st with
+      | offline => exact absurd (by simpa using hst) hd.awake.1
+      | passiveIdle => exact absurd (by simpa using hst) hd.awake.2
+      | listenToken sr coll =>
+        obtain ⟨hq, -, hs⟩ := hd.listen sr coll (by simpa using hst)
+        refine .inl (quiet rfl hq ?_)
+        intro a d h
+        rcases hs with ⟨-, _, _, h'⟩ | ⟨-, h'⟩ | ⟨-, h', -⟩ | ⟨-, h' | h'⟩ <;> rw [h'] at h <;> cases h
+      | activeIdle sr np coll =>
+        obtain ⟨hq, -, -, hs⟩ := hd.idle sr np coll (by simpa using hst)
+        refine .inl (quiet rfl hq ?_)
+        intro a d h
+        rcases hs with ⟨_, _, _, h'⟩ | ⟨_, _, h'⟩ | (h' | h') | ⟨-, _, _, _, _, _, -, -, -, -, h'⟩ <;> rw [h'] at h <;> cases h
+      | claimToken step =>
+        obtain ⟨hq, -, -, hs⟩ := hd.claim step (by simpa using hst)
+        refine .inl (quiet rfl hq ?_)
+        intro a d h
+        rcases hs with ⟨_, h'⟩ | h' | h' <;> rw [h'] at h <;> cases h
+      | passToken g att =>
+        obtain ⟨hq, -, hs⟩ := hd.pass g att (by simpa using hst)
+        refine .inl (quiet rfl hq ?_)
+        intro a d h
+        rcases hs with ⟨h', -⟩ | ⟨-, ⟨_, h'⟩, -⟩ | ⟨-, h' | h', -⟩ <;> rw [h'] at h <;> cases h
+      | checkTokenPass att =>
+        obtain ⟨hq, -, hs⟩ := hd.check att (by simpa using hst)
+        refine .inl (quiet rfl hq ?_)
+        intro a d h
+        rcases hs with ⟨-, _, _, -, ⟨h', -⟩ | ⟨-, h' | h', -⟩⟩ |
+          ⟨-, _, _, _, -, ⟨-, h', -⟩ | ⟨-, -, ⟨_, _, _, h'⟩ | ⟨_, _, h'⟩ | ⟨_, _, _, -, -, -, -, h'⟩⟩⟩ <;> rw [h'] at h <;> cases h
+      | awaitStatus a0 =>
+        obtain ⟨hq, -, -, hs⟩ := hd.status a0 (by simpa using hst)
+        refine .inl (quiet rfl hq ?_)
+        intro a d h
+        rcases hs with h' | h' | h' | h' | h' <;> rw [h'] at h <;> cases h
+      | useToken d fcd =>
+        obtain ⟨new, hc, har, -, -, -, -, hcase⟩ := hd.use d fcd (by simpa using hst)
+        have hc' : c'.calls = new := by simpa using hc
+        refine .inr (.inl ⟨hon, ⟨d, fcd, rfl⟩, by rw [hc']; exact har, ?_⟩)
+        rw [hc']
+        rcases hcase with ⟨_, _, h'⟩ | h' | ⟨-, hl⟩
+        · intro a d h; rw [h'] at h; cases h
+        · intro a d h; rw [h'] at h; cases h
+        · exact hl
+      | awaitData a d =>
+        obtain ⟨-, -, -, -, hcase⟩ := hd.await a d (by simpa using hst)
+        rcases hcase with ⟨hc, hs, hn⟩ | ⟨t, hv, hc, hs⟩ | ⟨hc, hs⟩ | ⟨new, hc, har, hcase⟩
+        · refine .inl ⟨by simpa using hc, fun a' d' h => ?_⟩
+          rw [hs] at h; cases h
+          exact ⟨rfl, by simpa using hn⟩
+        · exact .inr (.inr ⟨hon, a, d, rfl, .inl ⟨t, by simpa using hv, by simpa using hc, hs⟩⟩)
+        · refine .inl ⟨by simpa using hc, fun a' d' h => ?_⟩
+          rw [hs] at h; cases h
+        · refine .inr (.inr ⟨hon, a, d, rfl, .inr ⟨new, by simpa using hc, har, ?_⟩⟩)
+          rcases hcase with ⟨_, _, h'⟩ | h' | ⟨-, hl⟩
+          · intro a d h; rw [h'] at h; cases h
+          · intro a d h; rw [h'] at h; cases h
+          · exact hl
+    · rw [hw] at hd
+      obtain ⟨hq, -, hs⟩ := hd.listen none 0 (by simp)
+      refine .inl (quiet rfl hq ?_)
+      intro a d h
+      rcases hs with ⟨-, _, _, h'⟩ | ⟨-, h'⟩ | ⟨-, h', -⟩ | ⟨-, h' | h'⟩ <;> rw [h'] at h <;> cases h
+
 end PV
